@@ -190,6 +190,10 @@ class Runner:
                 w.ana.do_trial_with_given_pseudo_data(seed=1, mean_n_sig=0., n_sig=0, n_events_list=[len(e)], events_list=[e], minimizer_rss=rss)
                 lines[-1] = self.eval_line()
                 lines = self.fix_perm(lines)
+            elif k == 'changeShg':
+                # the real invalidation of the MC cache (MCDataSamplingBkgGenMethod.change_shg_mgr)
+                w.mc_method.change_shg_mgr(w.shg)
+                lines.append('resetCache')
             elif k == 'evaluate':
                 if w.tdm.events is not None:
                     w.ana._llhratio.maximize(rss)
@@ -232,7 +236,7 @@ def gen_history(rng, length, with_dotrial=False, spec=None):
     scrs = pf.scramblers_for(spec) if spec else pf.SCRAMBLERS
     ops, nh = [], 0
     while len(ops) < length:
-        ks = ['genFixed', 'genFixed', 'genMC', 'genMC', 'genComp', 'genComp', 'genSig', 'genSigReal', 'genSigReal', 'unblind', 'evaluate']
+        ks = ['genFixed', 'genFixed', 'genMC', 'genMC', 'genMC', 'genComp', 'genComp', 'genSig', 'genSigReal', 'genSigReal', 'unblind', 'evaluate', 'changeShg']
         if with_dotrial:
             ks += ['genSigRealRanges']
         if nh:
